@@ -9,6 +9,14 @@ For every generated (configuration, history) each operation is executed on the i
 after EVERY operation the returned value, a per-machine sentinel set and the access's own neighbourhood
 (targets, documented aliases, cross-space twins, neighbours, linearly-addressed cells) are read back as bytes and
 compared with the model.  A machine stops at its first violating operation (later state would be tainted).
+
+Configuration ORDER is generated (cfg["seq"]: card-slot calls and overlay registrations in any order; "the later call
+wins").  Overlays may OVERLAP each other, the card window and the Python ROM image: precedence between overlays is
+undocumented, so an overlap cell must behave, consistently, like one of the overlays covering it (class "ovlp" of
+the model) -- which is exactly what "a byte written is what is next read / no other location changes" needs.
+rs-cpu additionally runs a model-free composition twin (see run_twin_batch) for wide accesses inside the internal
+memory window, observed through CPU byte loads, so that the device register block at 0xF0.. is covered by
+"multi-byte accesses equal the composition of byte accesses" without modelling the devices.
 """
 
 from __future__ import annotations
@@ -24,12 +32,15 @@ from .. import rsclient
 PROPERTY = "C11"
 RULE = ("machines = (memory configuration, history of 8/16/24-bit loads and stores at 32-bit addresses) per model "
         "(py, py-emu, rs, rs-cpu); configuration: RAM fill, ROM image (load_rom / load slice / PC-E500 window+map), "
-        "memory card size/writable/absent, RAM/ROM overlays, read-only ranges, mirror on/off; addresses from "
+        "memory card size/writable/absent as an ORDERED sequence of 0-3 card-slot calls interleaved with the overlay "
+        "registrations, 0-3 RAM/ROM overlays (30 % of configurations: overlapping each other / the card window / the "
+        "Python ROM image), read-only ranges, mirror on/off; addresses from overlap spans and their edges, "
         "region interiors, region boundaries +-2, internal window, previously written cells and their "
         "neighbours, documented aliases (2^24 wrap, mod 1 MiB / mod 256, mirror window), wild 32-bit values. "
         "Non-trivial = the history contains a store whose cells are later loaded through a different raw address "
         "(alias or overlapping neighbour access), or a store into a read-only/absent cell; distinct = "
-        "hash(configuration, history).")
+        "hash(configuration, history). rs-cpu: every 16/24-bit access lying inside the internal window is also run as "
+        "its byte accesses on a twin machine and compared through CPU byte loads and all probes.")
 
 INT = M.INT
 KINDS = ("py", "py-emu", "rs", "rs-cpu")
@@ -56,15 +67,19 @@ def _cfg_steps_rs(cfg: Dict[str, Any]) -> List[List[Any]]:
         if mapped:  # set_readonly_ranges replaces the list: keep the PC-E500 map ranges in it
             ro = [[0x00000, 0x3FFFF], [M.ROM_LO, M.ROM_HI]] + ro
         steps.append(["ro", ro])
-    if cfg.get("card") is not None:
-        steps.append(["card", cfg["card"]["size"], cfg["card"]["k"]])
-    if cfg.get("slot") is not None:
-        steps.append(["slot", bool(cfg["slot"])])
-    for i, o in enumerate(cfg.get("ovl") or []):
-        if o["kind"] == "ram":
-            steps.append(["ram_ovl", o["start"], o["size"], f"x{i}"])
+    ovl = cfg.get("ovl") or []
+    for stp in M.steps(cfg):  # card-slot calls and overlay registrations in the configured order
+        if stp[0] == "card":
+            steps.append(["card", stp[1]["size"], stp[1]["k"]])
+        elif stp[0] == "slot":
+            steps.append(["slot", bool(stp[1])])
         else:
-            steps.append(["rom_ovl", o["start"], o["size"], o["k"], f"x{i}"])
+            i = stp[1]
+            o = ovl[i]
+            if o["kind"] == "ram":
+                steps.append(["ram_ovl", o["start"], o["size"], f"x{i}"])
+            else:
+                steps.append(["rom_ovl", o["start"], o["size"], o["k"], f"x{i}"])
     return steps
 
 
@@ -139,13 +154,11 @@ def make_py(cfg: Dict[str, Any]):
     if cfg["model"] == "py-emu":
         from pce500.emulator import PCE500Emulator
 
-        emu = PCE500Emulator(save_lcd_on_exit=False, memory_card_present=cfg.get("slot") is not False)
+        emu = PCE500Emulator(save_lcd_on_exit=False)
         mem = emu.memory
         mem._c11_keepalive = emu
     else:
         mem = PCE500Memory()
-        if cfg.get("slot") is False:
-            mem.set_memory_card_present(False)
     if cfg.get("fill") is not None:
         k = cfg["fill"]
         blob = _FILL_CACHE.get(k)
@@ -156,15 +169,21 @@ def make_py(cfg: Dict[str, Any]):
     rom = cfg.get("rom")
     if rom is not None:
         mem.load_rom(M.pat_bytes(rom["k"], M.ROM_LO, 0x40000))
-    card = cfg.get("card")
-    if card is not None and cfg.get("slot") is not False:
-        mem.load_memory_card(M.pat_bytes(card["k"], M.CARD_LO, card["size"]), card["size"],
-                             writable=card.get("writable", True))
-    for i, o in enumerate(cfg.get("ovl") or []):
-        if o["kind"] == "ram":
-            mem.add_ram(o["start"], o["size"], f"x{i}")
+    ovl = cfg.get("ovl") or []
+    for stp in M.steps(cfg):  # card-slot calls and overlay registrations in the configured order
+        if stp[0] == "card":
+            card = stp[1]
+            mem.load_memory_card(M.pat_bytes(card["k"], M.CARD_LO, card["size"]), card["size"],
+                                 writable=card.get("writable", True))
+        elif stp[0] == "slot":
+            mem.set_memory_card_present(bool(stp[1]))
         else:
-            mem.add_rom(o["start"], M.pat_bytes(o["k"], o["start"], o["size"]), f"x{i}")
+            i = stp[1]
+            o = ovl[i]
+            if o["kind"] == "ram":
+                mem.add_ram(o["start"], o["size"], f"x{i}")
+            else:
+                mem.add_rom(o["start"], M.pat_bytes(o["k"], o["start"], o["size"]), f"x{i}")
     return mem
 
 
@@ -198,6 +217,9 @@ def _where(m: M.Model, op: List[Any]) -> str:
     return f"{m.kind} {op[0]}{op[2]}/{via} [{','.join(flags)}] {regions}"
 
 
+TAINT_FLAGS = {"hi-mapped", "ovl-edge", "ro-edge", "int-end", "ext-top", "mir-split"}
+
+
 class Checker:
     """Steps the reference model alongside the observations of one machine."""
 
@@ -205,6 +227,7 @@ class Checker:
         self.case = case
         self.m, self.sent, self.plan = plan(case)
         self.idx = 0
+        self.stop = False  # set when the machine must end although no violation was found (see step)
 
     def step(self, ret: int, pv: List[int]) -> Optional[Violation]:
         m = self.m
@@ -225,6 +248,13 @@ class Checker:
             written = [(op[3] >> (8 * i)) & 0xFF for i in range(n)]
             m.store(addr, n, op[3])
         where = _where(m, op)
+        if not m.py and m.ovlp_spans and any(m.info(c)[1] == "ovlp" for c in cells):
+            # Rust models: an access in one of the multi-byte / high-alias situations of the known findings that
+            # touches overlap cells cannot be judged reliably by the "behaves like ONE of the covering overlays"
+            # oracle (a store the implementation loses looks like a read-only overlay winning).  It is still
+            # checked, but the machine ends here so that a wrongly dropped candidate cannot taint later verdicts.
+            if set(M.describe(m, addr, n)[1]) & TAINT_FLAGS:
+                self.stop = True
         shown = {"cfg": self.case["cfg"], "ops": self.case["ops"][: self.idx],
                  "sent_seed": self.case.get("sent_seed", 0), "profile": self.case.get("profile", "mixed")}
         if ret < 0:
@@ -233,22 +263,6 @@ class Checker:
         syms: List[str] = []
         det: List[str] = []
         ret_bad = False
-        if kind == "ld":
-            for i, c in enumerate(cells):
-                b = (ret >> (8 * i)) & 0xFF
-                if m.cpu and bits == 24 and i == 2:
-                    # MV X,[lmn] keeps 20 bits: only the low nibble of the third byte is observable
-                    cur = m.get(c)
-                    ok = True
-                    if m.info(c)[1] != "dev" and cur is not None:
-                        allowed = cur if isinstance(cur, tuple) else (cur,)
-                        ok = any((x & 0x0F) == (b & 0x0F) for x in allowed)
-                else:
-                    ok = m.observe(c, b)
-                if not ok:
-                    ret_bad = True
-                    syms.append(f"ret:byte{i}")
-                    det.append(f"returned byte{i}={b:#04x} but cell {c:#x} holds {m.get(c)!r}")
         tgt_bad = False
         other_tags: List[str] = []
         canon_seen: Dict[int, int] = {}
@@ -287,10 +301,27 @@ class Checker:
             reported.add(c)
             old = before.get(c)
             cls = m.info(c)[1]
+            if cls == "ovlp":
+                # overlap of overlays that are all RAM / all read-only: the usual vocabulary applies
+                kinds = m.ovlp_classes(c)
+                if kinds == {"ram"}:
+                    cls = "ram"
+                elif kinds <= {"ro", "absent"}:
+                    cls = "ro"
             if tag == "target":
                 tgt_bad = True
-                if kind == "st" and cls == "ram":
-                    what = "lost" if (isinstance(old, int) and v == old) else "wrong"
+                if cls == "ovlp":
+                    # overlays of different kinds: name the outcome in the usual vocabulary where it is determined
+                    olds = old if isinstance(old, tuple) else (old,)
+                    if kind == "st" and v in olds:
+                        what = "lost"          # unchanged although a RAM overlay is among the candidates
+                    elif kind == "st" and v in written:
+                        what = "ro-written"    # changed although only read-only candidates are left
+                    else:
+                        what = "fits-no-overlay"
+                elif kind == "st" and cls == "ram":
+                    olds = old if isinstance(old, tuple) else (old,)
+                    what = "lost" if v in olds else "wrong"
                 elif kind == "st":
                     what = "ro-written" if v in written else "ro-changed"
                 else:
@@ -299,13 +330,33 @@ class Checker:
                 other_tags.append(tag)
                 if tag == "sentinel":
                     tag = f"sentinel({m.info(c)[0]})"
-                if kind == "st":
+                if cls == "ovlp":
+                    what = "fits-no-overlay"
+                elif kind == "st":
                     what = "got-written-byte" if v in written else "changed"
                 else:
                     what = "differs"
             syms.append(f"{tag}:{what}")
             det.append(f"{tag} probe {a:#x} (cell {c:#x}, {m.info(c)[0]}) reads {v:#04x}, model {m.get(c)!r}"
                        f" (before op: {old!r})")
+        if kind == "ld":
+            # after the byte probes, so that cells whose content the model does not know are adopted from byte
+            # reads (loads have no effect on memory, so the order of the comparisons is free)
+            for i, c in enumerate(cells):
+                b = (ret >> (8 * i)) & 0xFF
+                if m.cpu and bits == 24 and i == 2:
+                    # MV X,[lmn] keeps 20 bits: only the low nibble of the third byte is observable
+                    cur = m.get(c)
+                    ok = True
+                    if m.info(c)[1] != "dev" and cur is not None:
+                        allowed = cur if isinstance(cur, tuple) else (cur,)
+                        ok = any((x & 0x0F) == (b & 0x0F) for x in allowed)
+                else:
+                    ok = m.observe(c, b)
+                if not ok:
+                    ret_bad = True
+                    syms.append(f"ret:byte{i}")
+                    det.append(f"returned byte{i}={b:#04x} but cell {c:#x} holds {m.get(c)!r}")
         if kind == "ld":
             # model-free: the multi-byte load must equal the composition of byte loads at the same addresses
             byaddr = {tagged[k][0]: pv[k] for k in range(len(tagged))}
@@ -332,8 +383,141 @@ class Checker:
                          + (f" value {op[3]:#x}" if kind == "st" else f" -> {ret:#x}") + ": " + "; ".join(det[:6]))
 
 
+# ------------------------------------------------------------------------------------------ composition twin
+# rs-cpu only.  The reference model never value-checks device registers, so for wide accesses inside the internal
+# memory window (which holds the KOL/KOH/KIL, E-port and SIO register block at 0xF0-0xFA) the statement's "multi-byte
+# loads and stores equal the little-endian composition of byte accesses" is checked model-free: the same machine
+# is run twice through CoreRuntime::step -- once with the history as generated, once with every such wide access
+# replaced by its byte accesses in ascending address order -- and after each of them the two runs must agree on
+# (a) the loaded value, (b) what CPU byte loads (MV A,(n)) of the access's own bytes return, i.e. the registers
+# as the program sees them, not the backing array, and (c) every memory probe.  Grounding: property statement;
+# the RuntimeBus comment "Split multi-byte accesses so the keyboard handler sees both bytes".
+def twin_applies(op: List[Any]) -> bool:
+    n = op[2] // 8
+    a = op[1] & 0xFFFFFF
+    return n > 1 and INT <= a and a + n - 1 <= INT + 0xFA
+
+
+def _twin_requests(case: Dict[str, Any]) -> Tuple[Dict[str, Any], Dict[str, Any], List[Tuple[int, int, int]]]:
+    m, sent, pl = plan(case)
+    A: List[List[Any]] = []
+    B: List[List[Any]] = []
+    marks: List[Tuple[int, int, int]] = []
+    for k, (op, pr) in enumerate(zip(case["ops"], pl)):
+        code, regs, ret = cpu_code(op)
+        if not twin_applies(op):
+            A.append(["x", M.CODE_LO, code, regs, ret, []])
+            B.append(["x", M.CODE_LO, code, regs, ret, []])
+            continue
+        n = op[2] // 8
+        raw = [(op[1] + i) & 0xFFFFFF for i in range(n)]
+        probes = list(sent) + [a for a, _ in pr] + raw
+        obs = [["x", M.CODE_LO, [0x32, 0x80, (a - INT) & 0xFF], {"A": 0}, "A", []] for a in raw]
+        marks.append((k, len(A), len(B)))
+        A.append(["x", M.CODE_LO, code, regs, ret, probes])
+        A += obs
+        for i, a in enumerate(raw):
+            bop = [op[0], a, 8] + ([(op[3] >> (8 * i)) & 0xFF] if op[0] == "st" else []) + [op[-1]]
+            bcode, bregs, bret = cpu_code(bop)
+            B.append(["x", M.CODE_LO, bcode, bregs, bret, probes if i == n - 1 else []])
+        B += obs
+    cfg = _cfg_steps_rs(case["cfg"])
+    return ({"mode": "cpu", "cfg": cfg, "sent": [], "ops": A}, {"mode": "cpu", "cfg": cfg, "sent": [], "ops": B},
+            marks)
+
+
+def run_twin_batch(cases: List[Dict[str, Any]]) -> List[Tuple[Optional[Violation], int]]:
+    """Composition-twin verdicts for rs-cpu cases: (first violation or None, number of wide accesses compared)."""
+    reqs: List[Dict[str, Any]] = []
+    marks_of: List[List[Tuple[int, int, int]]] = []
+    for case in cases:
+        a, b, marks = _twin_requests(case)
+        marks_of.append(marks)
+        if marks:
+            reqs += [a, b]
+    results: List[Any] = []
+    if reqs:
+        req = {"cmd": "c11.run", "cases": reqs}
+        try:
+            resp = rsclient.shared().call(req)
+        except HarnessError:
+            resp = rsclient.shared().call(req)  # see run_rs_batch
+        if not resp.get("ok"):
+            raise HarnessError(f"c11.run (twin) failed: {str(resp)[:300]}")
+        results = resp["results"]
+    out: List[Tuple[Optional[Violation], int]] = []
+    pos = 0
+    for case, marks in zip(cases, marks_of):
+        if not marks:
+            out.append((None, 0))
+            continue
+        ra, rb = results[pos], results[pos + 1]
+        pos += 2
+        out.append(_twin_verdict(case, marks, ra, rb))
+    return out
+
+
+def _twin_verdict(case: Dict[str, Any], marks: List[Tuple[int, int, int]], ra: Any, rb: Any
+                  ) -> Tuple[Optional[Violation], int]:
+    for r in (ra, rb):
+        if "ops" not in r:
+            msg = r.get("panic") or r.get("error") or "?"
+            if "panic" in r:
+                return Violation("api", "rs-cpu machine", "panic", dict(case, twin=True), str(msg)[:300]), 0
+            raise HarnessError(f"c11 rust harness (twin): {msg}")
+    m, sent, pl = plan(case)
+    oa, ob = ra["ops"], rb["ops"]
+    done = 0
+    for k, ia, ib in marks:
+        op = case["ops"][k]
+        n = op[2] // 8
+        tagged = [(a, "sentinel") for a in sent] + list(pl[k]) + [((op[1] + i) & 0xFFFFFF, "own-byte") for i in range(n)]
+        syms: List[str] = []
+        det: List[str] = []
+        ret_a = oa[ia][0]
+        rets_b = [ob[ib + i][0] for i in range(n)]
+        obs_a = [oa[ia + 1 + i][0] for i in range(n)]
+        obs_b = [ob[ib + n + i][0] for i in range(n)]
+        if ret_a < 0 or min(rets_b + obs_a + obs_b) < 0:
+            shown = {"cfg": case["cfg"], "ops": case["ops"][: k + 1], "sent_seed": case.get("sent_seed", 0),
+                     "profile": case.get("profile", "mixed"), "twin": True}
+            return Violation("api", _where(m, op), "CoreRuntime.step returned Err", shown, f"op #{k} {op}"), done
+        if op[0] == "ld":
+            comp = sum((b & 0xFF) << (8 * i) for i, b in enumerate(rets_b))
+            mask = 0xFFFFF if op[2] == 24 else (1 << op[2]) - 1
+            if (comp ^ ret_a) & mask:
+                syms.append("twin:load!=byte-loads")
+                det.append(f"load{op[2]} returned {ret_a:#x}, its byte loads compose to {comp:#x}")
+        for i in range(n):
+            if obs_a[i] != obs_b[i]:
+                c = m.canon((op[1] + i) & 0xFFFFFF)
+                syms.append(f"twin:cpu-readback({m.info(c)[0]})")
+                det.append(f"after the wide access a CPU byte load of {(op[1] + i) & 0xFFFFFF:#x} gives "
+                           f"{obs_a[i]:#04x}, after the byte accesses {obs_b[i]:#04x}")
+        pa, pb = oa[ia][1], ob[ib + n - 1][1]
+        if len(pa) != len(tagged) or len(pb) != len(tagged):
+            raise HarnessError("twin probe count mismatch")
+        for (a, tag), va, vb in zip(tagged, pa, pb):
+            if va != vb:
+                if tag == "sentinel":
+                    tag = f"sentinel({m.info(m.canon(a))[0]})"
+                syms.append(f"twin:{tag}")
+                det.append(f"{tag} probe {a:#x} reads {va:#04x} after the wide access, {vb:#04x} after the byte "
+                           "accesses")
+        done += 1
+        if syms:
+            shown = {"cfg": case["cfg"], "ops": case["ops"][: k + 1], "sent_seed": case.get("sent_seed", 0),
+                     "profile": case.get("profile", "mixed"), "twin": True}
+            return Violation("compose", _where(m, op), ";".join(sorted(set(syms))), shown,
+                             f"op #{k} {op[0]}{op[2]} @{op[1]:#x}"
+                             + (f" value {op[3]:#x}" if op[0] == "st" else "") + ": " + "; ".join(det[:6])), done
+    return None, done
+
+
 def run_case(case: Dict[str, Any], rs_result: Any = None) -> Tuple[Optional[Violation], int]:
     """Execute + check one machine. Returns (first violation or None, number of ops checked)."""
+    if case.get("twin"):
+        return run_twin_batch([case])[0]
     ck = Checker(case)
     kind = case["cfg"]["model"]
     if kind.startswith("py"):
@@ -352,6 +536,8 @@ def run_case(case: Dict[str, Any], rs_result: Any = None) -> Tuple[Optional[Viol
             v = ck.step(ret, pv)
             if v is not None:
                 return v, i + 1
+            if ck.stop:
+                return None, i + 1
         return None, len(case["ops"])
     if rs_result is None:
         rs_result = run_rs_batch([case])[0]
@@ -364,6 +550,8 @@ def run_case(case: Dict[str, Any], rs_result: Any = None) -> Tuple[Optional[Viol
         v = ck.step(ret, pv)
         if v is not None:
             return v, i + 1
+        if ck.stop:
+            return None, i + 1
     return None, len(case["ops"])
 
 
@@ -403,22 +591,54 @@ def _shard(task: Tuple[int, int, str, int, int]) -> Report:
         for i in range(0, len(cases), B):
             chunk = [c for c, _ in cases[i:i + B]]
             results[i:i + B] = run_rs_batch(chunk)
-    for (case, labels), res in zip(cases, results):
+    twins: List[Tuple[Optional[Violation], int]] = [(None, 0)] * len(cases)
+    if kind == "rs-cpu":
+        B = 24
+        for i in range(0, len(cases), B):
+            twins[i:i + B] = run_twin_batch([c for c, _ in cases[i:i + B]])
+    for (case, labels), res, (tv, tn) in zip(cases, results, twins):
         v, checked = run_case(case, res)
         lab = [f"model:{kind}", f"profile:{case['profile']}"] + sorted(set(labels))
+        if tn or tv is not None:
+            lab.append("twin:wide-imem-access-compared")
+            rep.extra["twin_compared"] = rep.extra.get("twin_compared", 0) + tn
+            for op in case["ops"]:
+                if twin_applies(op):
+                    lo = (op[1] & 0xFFFFFF) - INT
+                    hi = lo + op[2] // 8 - 1
+                    if lo < 0xF0 <= hi:
+                        lab.append("twin:" + op[0] + "-reaching-into-device-block")
+                    elif lo <= 0xF2 < hi:
+                        lab.append("twin:" + op[0] + "-running-out-of-keyboard-block")
+                    elif lo >= 0xF0:
+                        lab.append("twin:" + op[0] + "-inside-device-block")
+        if tv is not None:
+            rep.violate(tv)
+            lab.append("twin:violation")
         cfg = case["cfg"]
         lab.append("cfg:rom=" + (cfg["rom"]["api"] if cfg.get("rom") else "none"))
-        lab.append("cfg:card=" + ("absent" if cfg.get("slot") is False else
-                                  (str(cfg["card"]["size"] // 1024) + "K" if cfg.get("card") else "default")))
+        oc = M.card_outcome(cfg)
+        lab.append("cfg:card=" + ("reseat" if oc["reseat"] else
+                                  ("absent" if oc["absent"] and not oc["card"] else
+                                   (str(oc["card"]["size"] // 1024) + "K" if oc["card"] else "default"))))
+        cs = [x[0] + ("" if x[0] == "card" else ("+" if x[1] else "-")) for x in M.steps(cfg) if x[0] != "ovl"]
+        lab.append("cfg:card-seq=" + (">".join(cs) if cs else "none"))
         if cfg.get("ovl"):
             lab.append("cfg:overlays")
+            kinds = [x[0] for x in M.steps(cfg)]
+            if "ovl" in kinds and any(k != "ovl" for k in kinds[kinds.index("ovl"):]):
+                lab.append("cfg:overlay-before-card-call")
         if cfg.get("ro"):
             lab.append("cfg:ro-ranges")
         if cfg.get("mirror"):
             lab.append("cfg:mirror")
         m = M.Model(cfg)
+        if m.ovlp_spans:
+            lab.append("cfg:overlapping-overlays")
         for op in case["ops"][:checked]:
             regions, flags = M.describe(m, op[1], op[2] // 8)
+            if "ovlp" in regions:
+                lab.append("op:" + op[0] + "-in-overlap")
             lab.append(f"op:{op[0]}{op[2]}")
             for f in flags:
                 lab.append(f"flag:{f}")
@@ -427,6 +647,8 @@ def _shard(task: Tuple[int, int, str, int, int]) -> Report:
         if v is not None:
             rep.violate(v)
             lab.append("stopped-at-violation")
+        elif checked < len(case["ops"]):
+            lab.append("stopped-at-unjudgeable-overlap-access")
         rep.extra["ops_checked"] = rep.extra.get("ops_checked", 0) + checked
         nt = nontrivial({"cfg": cfg, "ops": case["ops"][:checked]})
         sample = None
@@ -481,8 +703,18 @@ def run(ctx: Ctx) -> Report:
         "a Python/Rust disagreement is not a verdict (each model is checked against its own documented map)",
         "cells whose writability is undocumented (card slot beyond the card's size; CoreRuntime::load_rom without a "
         "read-only map) may behave as RAM or as ROM, but must behave as memory",
-        "overlapping overlays, overlays inside the Rust mirror window and read-only ranges over non-canonical "
-        "mirror aliases are not generated (precedence / lookup order undocumented)",
+        "precedence between overlapping overlays is undocumented: a cell covered by several overlays (user overlays, "
+        "card window, Python ROM image) must behave consistently like ONE of them (candidates are dropped as "
+        "observations contradict them); Rust machines end after an access that is in one of the known multi-byte / "
+        "high-alias situations AND touches overlap cells (a lost store would look like a read-only overlay winning)",
+        "card-slot calls: the later call wins (a card loaded after the slot was declared absent is present; absent "
+        "after load = absent; Python present-after-absent brings the card back; Rust present-after-absent-after-load: "
+        "window content unspecified but memory-like); beyond a small card's end: unspecified but memory-like",
+        "overlays inside the Rust mirror window and read-only ranges over non-canonical mirror aliases are not "
+        "generated (lookup order undocumented)",
+        "rs-cpu composition twin: wide accesses inside internal memory 0x00-0xFA only (keyboard/E-port/SIO register "
+        "block included, LCD port windows excluded: their address-decoded command/data ports are C15's subject); byte "
+        "accesses in ascending address order; observation = MV A,(n) of the access's own bytes + all memory probes",
         "device cells (py-emu: IMEM 0xF0-0xF2, LCD 0x2000-0x200F and 0xA000-0xAFFF; rs-cpu: IMEM 0xF0-0xFF, LCD "
         "0x2000-0x2FFF and 0xA000-0xAFFF) are never value-checked; rs-cpu never targets IMEM 0xFB-0xFF",
         "RAM power-on content is injected through the backing store (external_memory slice / load_external)",
@@ -531,19 +763,38 @@ def shrink(ctx: Ctx, v: Violation) -> Violation:
         else:
             i += 1
     # 2. drop configuration items
+    def drop_cfg(trial: Dict[str, Any], k: str, j: Optional[int]) -> None:
+        """Remove cfg[k] (or its j-th item), keeping the overlay indices inside cfg["seq"] consistent."""
+        cfg = trial["cfg"]
+        if j is None:
+            del cfg[k]
+        else:
+            del cfg[k][j]
+        if k == "ovl" and cfg.get("seq") is not None:
+            seq = []
+            for x in cfg["seq"]:
+                if x[0] != "ovl":
+                    seq.append(x)
+                elif j is not None and x[1] != j:
+                    seq.append(["ovl", x[1] - (1 if x[1] > j else 0)])
+            cfg["seq"] = seq
+
     for k in ("ovl", "ro", "card", "slot", "rom", "map", "fill"):
         if k in case["cfg"] and case["cfg"][k] not in (None, False):
             trial = copy.deepcopy(case)
-            del trial["cfg"][k]
+            drop_cfg(trial, k, None)
             w = attempt(trial)
             if w is not None:
                 case, best = copy.deepcopy(w.case), w
-    for k in ("ovl", "ro"):
+    for k in ("ovl", "ro", "seq"):
         items = case["cfg"].get(k) or []
         j = 0
-        while j < len(items) and len(items) > 1:
+        while j < len(items) and (len(items) > 1 or k == "seq"):
+            if k == "seq" and items[j][0] == "ovl":
+                j += 1
+                continue
             trial = copy.deepcopy(case)
-            del trial["cfg"][k][j]
+            drop_cfg(trial, k, j)
             w = attempt(trial)
             if w is not None:
                 case, best = copy.deepcopy(w.case), w
